@@ -7,6 +7,7 @@ import (
 	"go/types"
 	"os"
 	"path/filepath"
+	"regexp"
 	"sort"
 	"strings"
 
@@ -110,6 +111,7 @@ func runGeneric(r *Report, prop string) {
 		nf++
 		fn := r.P.FuncName(f)
 		runReadBufferRetained(r, g(8), f)
+		runWriteAfterSave(r, g(10), f)
 		// G9: every read->write copy loop of the anchored code (discovered by shape: a Read in a loop
 		// whose buffer is handed to a Write in the same loop) keeps the copy-loop obligations
 		Instrs(f, func(in ssa.Instruction) {
@@ -751,4 +753,116 @@ func runReadBufferRetained(r *Report, rule string, f *ssa.Function) int {
 		r.Ob(rule, ci.Pos(), bad == "", "bytes of the buffer this loop refills are handed on only as a copy (a sub-slice of it is "+bad+": the next read overwrites what the receiver still holds)", fn, "read-buffer-not-retained")
 	})
 	return n
+}
+
+// ---------------------------------------------------------------------------
+// G10 write after save: a field of a record is assigned after the record was handed to a persisting
+// call (Create*/Update*/Save*/Store*/Put* taking the record) and the record is not persisted again
+// afterwards: what is stored lacks the assignment (the caller's copy and the stored copy disagree -
+// e.g. an expiry shown in the response but never stored).
+
+var persistName = regexp.MustCompile(`^(Create|Update|Save|Store|Put)([A-Z].*)?$`)
+
+func runWriteAfterSave(r *Report, rule string, f *ssa.Function) {
+	fn := r.P.FuncName(f)
+	type persist struct {
+		c   ssa.CallInstruction
+		rec ssa.Value
+	}
+	var ps []persist
+	Instrs(f, func(in ssa.Instruction) {
+		ci, ok := in.(*ssa.Call)
+		if !ok {
+			return
+		}
+		name := ""
+		if ci.Common().IsInvoke() {
+			name = ci.Common().Method.Name()
+		} else if h := ci.Common().StaticCallee(); h != nil {
+			name = h.Name()
+		}
+		viaParam := -1
+		if !persistName.MatchString(name) {
+			// a same-package helper that hands one of its parameters to a persisting call
+			h := ci.Common().StaticCallee()
+			if h == nil || h.Pkg != f.Pkg || len(h.Blocks) == 0 {
+				return
+			}
+			Instrs(h, func(x ssa.Instruction) {
+				hc, ok := x.(*ssa.Call)
+				if !ok {
+					return
+				}
+				n2 := ""
+				if hc.Common().IsInvoke() {
+					n2 = hc.Common().Method.Name()
+				} else if g := hc.Common().StaticCallee(); g != nil {
+					n2 = g.Name()
+				}
+				if !persistName.MatchString(n2) {
+					return
+				}
+				for _, a := range hc.Common().Args {
+					if p, isP := stripValue(a).(*ssa.Parameter); isP {
+						for i, q := range h.Params {
+							if q == p {
+								viaParam = i
+							}
+						}
+					}
+				}
+			})
+			if viaParam < 0 {
+				return
+			}
+		}
+		for ai, a := range ci.Common().Args {
+			if viaParam >= 0 && ai != viaParam {
+				continue
+			}
+			pt, ok := a.Type().Underlying().(*types.Pointer)
+			if !ok {
+				continue
+			}
+			nt, ok := pt.Elem().(*types.Named)
+			if !ok || nt.Obj().Pkg() == nil || !strings.HasPrefix(nt.Obj().Pkg().Path(), Module) {
+				continue
+			}
+			if _, isSt := nt.Underlying().(*types.Struct); !isSt {
+				continue
+			}
+			if _, isP := stripValue(a).(*ssa.Parameter); isP && ci.Common().Args[0] == a && !ci.Common().IsInvoke() {
+				continue // the receiver
+			}
+			ps = append(ps, persist{ci, a})
+		}
+	})
+	for _, p := range ps {
+		rec := stripValue(p.rec)
+		Instrs(f, func(in ssa.Instruction) {
+			st, ok := in.(*ssa.Store)
+			if !ok {
+				return
+			}
+			fa, ok := st.Addr.(*ssa.FieldAddr)
+			if !ok || stripValue(fa.X) != rec {
+				return
+			}
+			after := st.Block() == p.c.Block() && Before(p.c.(ssa.Instruction), st) || (st.Block() != p.c.Block() && CanReach(p.c.Block(), st.Block()) && !CanReach(st.Block(), p.c.Block()))
+			if !after {
+				return
+			}
+			// persisted again afterwards?
+			again := false
+			for _, q := range ps {
+				if stripValue(q.rec) != rec || q.c == p.c {
+					continue
+				}
+				if st.Block() == q.c.Block() && Before(st, q.c.(ssa.Instruction)) || (st.Block() != q.c.Block() && CanReach(st.Block(), q.c.Block())) {
+					again = true
+				}
+			}
+			r.Ob(rule, st.Pos(), again, fmt.Sprintf("%s is assigned after the record was handed to %s and the record is not persisted again: the stored copy lacks the assignment", fieldDesc(fa.X.Type(), fa.Field), CalleeOf(p.c).Name), fn, "write-after-save:"+fieldDesc(fa.X.Type(), fa.Field))
+		})
+	}
 }
